@@ -4,6 +4,7 @@ import LitexProofs.Wishbone.SramBurst
 import LitexProofs.Wishbone.Conv
 import LitexProofs.Wishbone.Remap
 import LitexProofs.Wishbone.ToCsr
+import LitexProofs.Wishbone.Cache
 /-
   C07 — Wishbone adapters and memories are transparent to the master: flat byte-addressable memory semantics.
 
@@ -234,6 +235,61 @@ example :
        { adr := 0, we := false, sel := [true, true], dat := [0x11, 0x22] }] ∧
     ¬ Consistent c.nb (Mem.ofList [5, 6]) (ops (wb2csrOver c (Mem.ofList [5, 6])) (ToCsr.adrMap c) ins) := by
   decide
+
+/-! ## Cache -/
+
+/-- **`wishbone.Cache` is transparent** (`_partial`): write-back, direct-mapped, every geometry — any number of
+    lines, master narrower or wider than the slave, line = several master words or several slave words,
+    `reverse` on or off (`Cache.fmap` is the identity unless `reverse`) — every slave latency, every history of a
+    protocol-following master that stays within `NG` global lines: read hits, write hits, clean misses, dirty
+    evictions followed by the refill of the same set.  `Cache.Geo c NG` lists the geometry side conditions
+    (`nbm·2^offsetbits = nbs·2^wordbits`, address widths large enough).
+
+    Hypothesis `hzero`: the backing memory holds 0 wherever the tag is 0 (the first `2^linebits` lines).
+    Full statement (fails on the code, witness below, finding C07-cache-no-valid-bit): the same without `hzero`
+    — the cache has no valid bit, its power-up state claims to hold the tag-0 lines. -/
+theorem cache_refines_mem_partial (c : CacheCfg) (NG : Nat) (g : Cache.Geo c NG) (M0 : Mem)
+    (hzero : ∀ x, x < 2 ^ c.linebits * Cache.LB c → M0 x = 0)
+    (ins : List (Req × Lat)) (hm : Classic ((cache c).over (latMem c.nbs M0)) ins)
+    (hadr : ∀ i ∈ ins, Cache.gline c i.1.adr < NG) :
+    Consistent c.nbm M0 (ops ((cache c).over (latMem c.nbs M0)) (Cache.fmap c) ins) ∧
+    AckOnlyStrobed ((cache c).over (latMem c.nbs M0)) ins :=
+  (Cache.refines (latMem c.nbs M0) (fun t _ M => t = M) NG g (fun i => Cache.gline c i.1.adr < NG) (fun _ => True)
+      (fun _ _ _ _ => trivial) (fun _ _ h => h) (latMem_refines c.nbs M0)).run M0
+    (Cache.inv_init (latMem c.nbs M0) _ NG g M0 rfl hzero) ins hm hadr
+
+/-- The master's address map is the identity when `reverse` is off. -/
+theorem cache_fmap_id (c : CacheCfg) (h : c.reverse = false) (a : Nat) : Cache.fmap c a = a := by
+  simp only [Cache.fmap, Cache.gline, Cache.chunk, h, Bool.false_eq_true, if_false]
+  rw [Nat.mul_comm]; exact Nat.div_add_mod a _
+
+/-- Non-vacuity: 2 lines × 2 slave words (16-bit master over an 8-bit slave, zero-latency oracle), backing
+    memory 0 on the tag-0 lines and `x + 1` elsewhere.  Write to a cold line, conflicting read (dirty eviction
+    + refill), read of the first address again (clean miss + refill): all data as a flat memory holds it. -/
+example :
+    let c : CacheCfg := { nbm := 2, nbs := 1, offsetbits := 0, linebits := 1, tagbits := 2, wordbits := 1, saw := 3, reverse := true }
+    let M0 : Mem := fun x => if x < 4 then 0 else x + 1
+    let q (we : Bool) (a : Nat) (d : List Byte) : Req × Lat :=
+      ({ cyc := true, stb := true, we := we, adr := a, sel := [true, true], dat := d, cti := 0, bte := 0 }, ⟨true, []⟩)
+    let ins := List.replicate 2 (q true 1 [0x11, 0x22]) ++ List.replicate 11 (q false 3 []) ++
+               List.replicate 7 (q false 1 [])
+    Classic ((cache c).over (latMem c.nbs M0)) ins ∧
+    ops ((cache c).over (latMem c.nbs M0)) (Cache.fmap c) ins =
+      [{ adr := 1, we := true, sel := [true, true], dat := [0x11, 0x22] },
+       { adr := 3, we := false, sel := [true, true], dat := [7, 8] },
+       { adr := 1, we := false, sel := [true, true], dat := [0x11, 0x22] }] := by decide
+
+/-- Negative witness for the excluded region: same cache, backing memory `x + 1` everywhere.  The very first
+    read of address 1 (tag 0) "hits" and returns `[0, 0]`; the backing memory holds `[3, 4]`. -/
+example :
+    let c : CacheCfg := { nbm := 2, nbs := 1, offsetbits := 0, linebits := 1, tagbits := 2, wordbits := 1, saw := 3, reverse := true }
+    let M0 : Mem := fun x => x + 1
+    let q (a : Nat) : Req × Lat :=
+      ({ cyc := true, stb := true, we := false, adr := a, sel := [true, true], dat := [], cti := 0, bte := 0 }, ⟨true, []⟩)
+    let ins := [q 1, q 1]
+    Classic ((cache c).over (latMem c.nbs M0)) ins ∧
+    ops ((cache c).over (latMem c.nbs M0)) (Cache.fmap c) ins = [{ adr := 1, we := false, sel := [true, true], dat := [0, 0] }] ∧
+    ¬ Consistent c.nbm M0 (ops ((cache c).over (latMem c.nbs M0)) (Cache.fmap c) ins) := by decide
 
 /-! ## Compositions with the real SRAM model (the SoC's usual stacks) -/
 
